@@ -32,4 +32,7 @@ def fn (f : Id) (args : List Val) : R Val := PB.runFn f args
 /-- result of a method / property (the receiver afterwards is dropped) -/
 def meth (c m : Id) (args : List Val) : R Val := (PB.runMethod c m args).map (·.1)
 
+/-- the translated `calc_bid_score` run with `f` levels of fuel (result only) -/
+def cbsAt (f : Nat) (args : List Val) : R Val := (callFn PB f f_calc_bid_score args).map (·.1)
+
 end Bridge.Translated
